@@ -179,7 +179,7 @@ def observe(case):
         if shared:
             os.chdir(cwd_before)
     after = fingerprint()
-    env = dict(os.environ, PYTHONPATH=f"{C.REPO}:{C.VERIF / 'harness'}", PYTHONHASHSEED="0", PYTHONDONTWRITEBYTECODE="1")
+    env = dict(os.environ, PYTHONPATH=f"{C.REPO}:{C.VERIF / 'harness'}", PYTHONHASHSEED=str(4242 + len(case["src"]) % 7), PYTHONDONTWRITEBYTECODE="1")
     p = subprocess.run([sys.executable, "-c", BASELINE], input=json.dumps(probe), env=env, capture_output=True, text=True,
                        timeout=CASE_TIMEOUT)
     line = [ln for ln in p.stdout.splitlines() if ln.startswith("RESULT")]
